@@ -93,6 +93,11 @@ CHECKS.update({
    text="Eleven scenarios (creates for a new / known / different SUPI, updates on the same / different sessions and subscribers, update vs release, update vs recharge, partial-record closures, three-request mixes): after a sequential set-up the requests run in concurrent driver threads; every placement of up to k PARK deviations at shared-state operations is executed to completion, then every acknowledged session is updated and released. No execution may block forever, panic or kill the process, and the final observation must equal that of some serial order of the same requests (reference = the implementation run serially in every permutation).",
    ref="6 C09", note=TB_E1 + "; unsynchronised plain-memory accesses between two gates are outside the cooperative scheduler's view (see DESIGN.md, race pass)"),
 })
+CHECKS.update({
+ "C20": dict(engine=E2, technique="bounded-exhaustive enumeration of YAML configurations (single + pairwise, thorough: triple deviations from a valid baseline) through the real validation and the real start-up sequence, process deaths attributed per configuration",
+   text="Every configuration within the deviation bound (sections and fields present/absent, tls blocks complete/absent/partial/empty, schemes, service lists incl. unknown/duplicate/missing, ports, URIs, versions, log levels) is read by factory.ReadConfig; configurations with an unknown service, a bad scheme or a missing mandatory section must be rejected; every accepted one is started through service.NewApp, rf.OpenServer, abmf.OpenServer, sbi.NewServer, a create and an online update, and the real startServer - any panic, 5xx or death of the process is a violation attributed to that configuration.",
+   ref="6 C20", note=TB_E1),
+})
 NA_REASON = "check under construction (see DESIGN.md section 6)"
 
 m = {"version": 1, "setup_cmd": "./setup.sh",
